@@ -642,7 +642,7 @@ ModelPages(s, q) ==
 \* export -> validate -> initialise a fresh module -> export: the identity on the module's state
 Reimport(s, in) == Res(TRUE, "", s, NoReq)
 
-Apply(s, in) ==
+ApplyCommitted(s, in) ==
   CASE in.t = "recv"     -> Recv(s, in)
     [] in.t = "admin"    -> Admin(s, in)
     [] in.t = "deposit"  -> Deposit(s, in)
@@ -652,6 +652,10 @@ Apply(s, in) ==
     [] in.t = "ackpkt"   -> AckPkt(s, in)
     [] in.t = "timeout"  -> Refund(s, in)
     [] OTHER             -> Res(TRUE, "", s, NoReq)       \* queries are read-only
+
+\* A discarded step (Inputs!Discarded) runs exactly like a committed one - same outcome, same requests,
+\* same movements inside its branch - and then its branch is dropped: the state is the pre-state.
+Apply(s, in) == LET r == ApplyCommitted(s, in) IN IF in.disc THEN [r EXCEPT !.st = s] ELSE r
 
 -----------------------------------------------------------------------------
 (* Stage order (micro-steps), observable without a hook: the ORDERED list of bank movements that   *)
